@@ -698,13 +698,13 @@ Print Assumptions p2tr_bch_decode_accepts_iff.
 Theorem substrate_decode_accepts_iff : forall (blake2b512 : list N -> list N) (valid_pub : N -> list N -> bool),
   (forall x, length (blake2b512 x) = 64%nat) -> (forall x, bytes_ok (blake2b512 x)) ->
   forall curve fmt s d,
-  substrate_decode valid_pub (Lemmas.AddrInst.ss58_dec blake2b512) curve fmt s = Ok d <->
-  substrate_encode (Lemmas.AddrInst.ss58_enc blake2b512) fmt d = Ok s /\ bytes_ok d /\ valid_pub curve d = true.
+  substrate_decode valid_pub (AddrCodecs.ss58_dec blake2b512) curve fmt s = Ok d <->
+  substrate_encode (AddrCodecs.ss58_enc blake2b512) fmt d = Ok s /\ bytes_ok d /\ valid_pub curve d = true.
 Proof. exact Lemmas.AddrAcceptText.substrate_accepts_iff_concrete. Qed.
 Print Assumptions substrate_decode_accepts_iff.
 (* ================================================================== Base32 formats *)
-Notation b32_dec := Lemmas.AddrInst.b32_dec.               (* Base32Decoder.Decode on the C11 codec model *)
-Notation b32_enc_nopad := Lemmas.AddrInst.b32_enc_nopad.   (* Base32Encoder.EncodeNoPadding *)
+Notation b32_dec := AddrCodecs.b32_dec.               (* Base32Decoder.Decode on the C11 codec model *)
+Notation b32_enc_nopad := AddrCodecs.b32_enc_nopad.   (* Base32Encoder.EncodeNoPadding *)
 Notation b32_alph_ok := Lemmas.Base32.custom_ok.           (* None, or 32 distinct symbols without '=' *)
 Notation b32_eff := Lemmas.Base32.eff.
 Notation zero_hash := Lemmas.AddrAcceptB32.zero_hash.      (* fun _ => 32 zero bytes *)
